@@ -1,6 +1,7 @@
 import CattrsModel.Sexp
 import CattrsModel.Dispatch.Model
 import CattrsModel.Dispatch.Locs
+import CattrsModel.Dispatch.Sig
 /-!
 # Line-protocol operations of the dispatch model (driver only; no theorem depends on this file)
 
@@ -10,6 +11,11 @@ import CattrsModel.Dispatch.Locs
   identity layer (`Locs.hrun` from `HStore.fresh`); for every converter of the final store the locations of its class
   registry, predicate list, union registry, direct table and lru cache (theorem C18_no_shared_locations: no two
   converters have one in common)
+
+`SIGKIND (<param>…)` → `(ok <extended|factory> <asks 0|1> <regular 0|1> <doc call binds 0|1> <cattrs' call binds 0|1>)`:
+  the `Kind` under which `register_*_hook_factory` files a factory whose `inspect.signature` has these parameters
+  (`Sig.kindOf`, transcription of `_is_extended_factory`), the documented rule (`Sig.asksConverter`), and whether the
+  two calls bind; `<param>` = `(<po|pk|vp|ko|vk> <has default 0|1>)`
 
 * `<facts>` `((mro (<k> <class key>…)…) (holds (<pred id> <accepted key>…)…) (union <k>…) (newtype <k>…)
             (late <builtin id>…) (comps (<k> <component key>…)…) (rank (<k> <rank>)…))`
@@ -163,6 +169,14 @@ def runStore (F : Facts) : Store → List SOp → List Sexp → Option (List Sex
 
 def err (what : String) : Sexp := .list [.atom "err", .atom what]
 
+def paramOfSexp : Sexp → Option Sig.Param
+  | .list [.atom k, d] => do
+    let kind ← match k with
+      | "po" => some Sig.PKind.posOnly | "pk" => some Sig.PKind.posOrKw | "vp" => some Sig.PKind.varPos
+      | "ko" => some Sig.PKind.kwOnly | "vk" => some Sig.PKind.varKw | _ => none
+    pure { kind := kind, hasDefault := ← bool? d }
+  | _ => none
+
 def dispatchHandle (op : String) (args : List Sexp) : Option Sexp :=
   match op, args with
   | "RUNHIST", [fx, .list cfgs, .list sops] =>
@@ -184,6 +198,13 @@ def dispatchHandle (op : String) (args : List Sexp) : Option Sexp :=
         let σ := Locs.hrun d.toFacts (Locs.HStore.fresh cfgs) sops
         some (.list (.atom "ok" :: σ.convs.map (fun c => .list (c.locs.map ofNat))))
     | _, _, _ => some (err "bad-args")
+  | "SIGKIND", [.list ps] =>
+    match ps.mapM paramOfSexp with
+    | some s =>
+      some (.list [.atom "ok", .atom (if Sig.kindOf s == Kind.extended then "extended" else "factory"),
+                   ofBool (Sig.asksConverter s), ofBool (Sig.regular s),
+                   ofBool (Sig.acceptsPos s (Sig.docArity s)), ofBool (Sig.acceptsPos s (Sig.implArity s))])
+    | none => some (err "bad-signature")
   | "SPEC", [fx, cfg, .list ops, .list keys] =>
     match factsDataOfSexp fx, cfgOfSexp cfg, ops.mapM opOfSexp, natList? keys with
     | some d, some cfg, some ops, some keys =>
